@@ -172,11 +172,12 @@ function render (P) {
 
   // alternatives: every sequence of leaf probe sites the operand values of `e` can carry (a
   // conditional operand contributes the leaves of whichever branch runs)
+  let overflow = false
   function cat (lists) {
     let acc = [[]]
     for (const alts of lists) {
       const next = []
-      for (const a of acc) for (const b of alts) { if (next.length < 64) next.push(a.concat(b)) }
+      for (const a of acc) for (const b of alts) { if (next.length < 256) next.push(a.concat(b)); else overflow = true }
       acc = next
     }
     return acc
@@ -196,13 +197,19 @@ function render (P) {
   function leavesOf (e) { return altsOf(e)[0] }
   let regN = 0
   function regAlts (id, hook, alts, label, acc) {
+    // when the alternatives of an operation were cut off, its registry entry is incomplete: the
+    // monitor must not read a missing tuple as a violation
+    const incomplete = overflow
+    overflow = false
     alts.forEach((leaves, i) => {
-      ops[i === 0 ? id : id + '~' + i] = { hook, leaves: acc ? ['ACC'].concat(leaves) : leaves, label }
+      ops[i === 0 ? id : id + '~' + i] = { hook, leaves: acc ? ['ACC'].concat(leaves) : leaves, label, incomplete }
       regN++
     })
   }
   function reg (e, hook, leaves, label) {
-    regAlts(e.id, hook, altsOf(e), label, false)
+    overflow = false
+    const alts = altsOf(e)
+    regAlts(e.id, hook, alts, label, false)
   }
   // every nested operation is an operation of its own: register bottom-up
   function ex (e, A) {
@@ -218,7 +225,9 @@ function render (P) {
         // registers, unless the nested one is not a plain `+` (then it is an operation of its own)
         // `a + b + c` is ((a + b) + c): one hook call per prefix of two or more operands
         for (let n = 2; n < e.ops.length; n++) {
-          regAlts(e.id + '.' + n, 'plusOperator', cat(e.ops.slice(0, n).map(altsOf)), e.label, false)
+          overflow = false
+          const palts = cat(e.ops.slice(0, n).map(altsOf))
+          regAlts(e.id + '.' + n, 'plusOperator', palts, e.label, false)
         }
         reg(e, 'plusOperator', leavesOf(e), e.label)
         const s = parts.join(' + ')
@@ -335,7 +344,9 @@ function render (P) {
         break
       case 'addassign': {
         const rhs = ex(s.e, A)
-        regAlts(s.id, 'plusOperator', altsOf(s.e), s.e.label, true)
+        overflow = false
+        const aalts = altsOf(s.e)
+        regAlts(s.id, 'plusOperator', aalts, s.e.label, true)
         if (s.target === 'local') emit(`acc += ${rhs};`); else emit(`box.x += ${rhs};`)
         break
       }
